@@ -17,6 +17,11 @@ EXTENDS Integers, Sequences, FiniteSets, TLC
 
 None == -1
 
+\* TLC idiom: evaluate v ONCE and bind the value (operator arguments and LET definitions are
+\* evaluated lazily and, at constant / state level, again on every reference; in deep recursions
+\* that is exponential). Eager(v, Op) = Op(v).
+Eager(v, Op(_)) == CHOOSE r \in {Op(x) : x \in {v}} : TRUE
+
 -----------------------------------------------------------------------------
 (* 1a. Structured flows. Every node is a record with the same fields:                             *)
 (*   k       "cmd" | "yield" | "ift" | "iff" | "while" | "for"                                    *)
@@ -83,37 +88,52 @@ StartStack(flow) == <<SeqTask(flow)>>
 
 SRes(ev, code, k, kT, kF) == [ev |-> ev, code |-> code, k |-> k, kT |-> kT, kF |-> kF]
 
+\* the next step's visible part only: <<ev, code>>
+SEvent(sk) ==
+    IF Len(sk) = 0 THEN <<"end", 0>>
+    ELSE
+    LET top == sk[1] IN
+    IF top.t = "seq" THEN
+        IF top.i > Len(top.nodes) THEN <<"tau", 0>>
+        ELSE LET nd == top.nodes[top.i]
+             IN  (CASE nd.k = "cmd" -> <<"cmd", nd.code>>
+                    [] nd.k = "yield" -> <<"yield", 0>>
+                    [] nd.k \in {"ift", "iff"} -> <<"cond", nd.code>>
+                    [] nd.k = "while" -> <<"tau", 0>>
+                    [] nd.k = "for" -> IF nd.init # 0 THEN <<"cmd", nd.init>> ELSE <<"tau", 0>>)
+    ELSE LET nd == top.nodes[1]
+         IN  (CASE top.t \in {"while", "for"} -> <<"cond", nd.code>>
+                [] top.t = "iter" -> <<"cmd", nd.iter>>)
+
+\* the step with its continuation(s)
 SStep(sk) ==
-    IF Len(sk) = 0 THEN SRes("end", 0, <<>>, <<>>, <<>>)
+    LET e == SEvent(sk) IN
+    IF Len(sk) = 0 THEN SRes(e[1], e[2], <<>>, <<>>, <<>>)
     ELSE
     LET top == sk[1]
         rest == Tail(sk)
     IN
     IF top.t = "seq" THEN
-        IF top.i > Len(top.nodes) THEN SRes("tau", 0, rest, <<>>, <<>>)
+        IF top.i > Len(top.nodes) THEN SRes(e[1], e[2], rest, <<>>, <<>>)
         ELSE
         LET nd == top.nodes[top.i]
             after == <<Task("seq", top.nodes, top.i + 1)>> \o rest
-        IN  (CASE nd.k = "cmd" -> SRes("cmd", nd.code, after, <<>>, <<>>)
-               [] nd.k = "yield" -> SRes("yield", 0, after, <<>>, <<>>)
+        IN  (CASE nd.k \in {"cmd", "yield"} -> SRes(e[1], e[2], after, <<>>, <<>>)
                [] nd.k = "ift" ->
-                    SRes("cond", nd.code, <<>>,
+                    SRes(e[1], e[2], <<>>,
                          <<SeqTask(nd.body)>> \o after,
                          IF nd.hasElse THEN <<SeqTask(nd.els)>> \o after ELSE after)
                [] nd.k = "iff" ->
-                    SRes("cond", nd.code, <<>>,
+                    SRes(e[1], e[2], <<>>,
                          IF nd.hasElse THEN <<SeqTask(nd.els)>> \o after ELSE after,
                          <<SeqTask(nd.body)>> \o after)
-               [] nd.k = "while" -> SRes("tau", 0, <<Task("while", <<nd>>, 1)>> \o after, <<>>, <<>>)
-               [] nd.k = "for" ->
-                    IF nd.init # 0
-                    THEN SRes("cmd", nd.init, <<Task("for", <<nd>>, 1)>> \o after, <<>>, <<>>)
-                    ELSE SRes("tau", 0, <<Task("for", <<nd>>, 1)>> \o after, <<>>, <<>>))
+               [] nd.k = "while" -> SRes(e[1], e[2], <<Task("while", <<nd>>, 1)>> \o after, <<>>, <<>>)
+               [] nd.k = "for" -> SRes(e[1], e[2], <<Task("for", <<nd>>, 1)>> \o after, <<>>, <<>>))
     ELSE
     LET nd == top.nodes[1] IN
-    (CASE top.t = "while" -> SRes("cond", nd.code, <<>>, <<SeqTask(nd.body), top>> \o rest, rest)
-       [] top.t = "for" -> SRes("cond", nd.code, <<>>, <<SeqTask(nd.body), Task("iter", <<nd>>, 1)>> \o rest, rest)
-       [] top.t = "iter" -> SRes("cmd", nd.iter, <<Task("for", <<nd>>, 1)>> \o rest, <<>>, <<>>))
+    (CASE top.t = "while" -> SRes(e[1], e[2], <<>>, <<SeqTask(nd.body), top>> \o rest, rest)
+       [] top.t = "for" -> SRes(e[1], e[2], <<>>, <<SeqTask(nd.body), Task("iter", <<nd>>, 1)>> \o rest, rest)
+       [] top.t = "iter" -> SRes(e[1], e[2], <<Task("for", <<nd>>, 1)>> \o rest, <<>>, <<>>))
 
 \* silent closure: advance to the next observable event (every silent step pops or unfolds a task,
 \* so the recursion is bounded by the size of the flow)
@@ -146,12 +166,24 @@ NextLoc(subs, l) == Norm(subs, Loc(l.s, l.p + 1))
 
 \* first location (in program order) carrying label L, or Bad
 Goto(subs, flat, L) ==
-    LET all == UNION {{Loc(s, p) : p \in 1..(IF flat THEN Len(subs[s]) ELSE 1)} : s \in 1..Len(subs)}
-        ls == {l \in all : l.p <= Len(subs[l.s]) /\ subs[l.s][l.p].label = L}
-    IN  IF ls = {} THEN Bad
-        ELSE CHOOSE l \in ls : \A m \in ls : l.s < m.s \/ (l.s = m.s /\ l.p <= m.p)
+    LET hits == IF flat
+                THEN UNION {{Loc(s, p) : p \in {q \in 1..Len(subs[s]) : subs[s][q].label = L}} : s \in 1..Len(subs)}
+                ELSE {Loc(s, 1) : s \in {t \in 1..Len(subs) : subs[t][1].label = L}}
+    IN  IF hits = {} THEN Bad
+        ELSE CHOOSE l \in hits : \A m \in hits : l.s < m.s \/ (l.s = m.s /\ l.p <= m.p)
 
 LRes(ev, code, l, lT, lF) == [ev |-> ev, code |-> code, l |-> l, lT |-> lT, lF |-> lF]
+
+\* the next step's visible part only: <<ev, code>>
+LEvent(subs, l) ==
+    IF l = End THEN <<"end", 0>>
+    ELSE IF l = Bad THEN <<"badtarget", 0>>
+    ELSE LET st == subs[l.s][l.p]
+         IN  (CASE st.k = "cmd" -> <<"cmd", st.code>>
+                [] st.k \in {"noop", "jump"} -> <<"tau", 0>>
+                [] st.k = "if" -> <<"cond", st.code>>
+                [] st.k = "yield" -> <<"yield", 0>>
+                [] OTHER -> <<"unknown", 0>>)
 
 LStep(subs, flat, l) ==
     IF l = End THEN LRes("end", 0, End, End, End)
@@ -185,6 +217,8 @@ LAdv(subs, flat, l) == LAdvF(subs, flat, l, Len(Flatten(subs)) + 1)
 \* the two machines agree on the next observable event
 Agree(se, le) == /\ se.ev = le.ev
                  /\ (se.ev \in {"cmd", "cond"} => se.code = le.code)
+AgreeEvents(s, l) == /\ s[1] = l[1]
+                     /\ (s[1] \in {"cmd", "cond"} => s[2] = l[2])
 
 -----------------------------------------------------------------------------
 (* 4. Static clauses of the property                                                               *)
@@ -238,19 +272,19 @@ SeqShapes(n) ==
 \* pre-order numbering; returns [ns |-> numbered sequence, next |-> next free number]
 RECURSIVE NumberSeq(_, _)
 NumberNode(nd, j) ==
-    LET b == NumberSeq(nd.body, j + 1)
-        e == NumberSeq(nd.els, b.next)
-    IN  [nd |-> Node(nd.k,
+    Eager(NumberSeq(nd.body, j + 1), LAMBDA b :
+    Eager(NumberSeq(nd.els, b.next), LAMBDA e :
+        [nd |-> Node(nd.k,
                       IF nd.k = "yield" THEN 0 ELSE 10 * j + 1,
                       IF nd.k = "for" /\ nd.init # 0 THEN 10 * j + 2 ELSE 0,
                       IF nd.k = "for" THEN 10 * j + 3 ELSE 0,
                       b.ns, nd.hasElse, e.ns),
-         next |-> e.next]
+         next |-> e.next]))
 NumberSeq(ns, j) ==
     IF Len(ns) = 0 THEN [ns |-> <<>>, next |-> j]
-    ELSE LET h == NumberNode(ns[1], j)
-             t == NumberSeq(Tail(ns), h.next)
-         IN  [ns |-> <<h.nd>> \o t.ns, next |-> t.next]
+    ELSE Eager(NumberNode(ns[1], j), LAMBDA h :
+         Eager(NumberSeq(Tail(ns), h.next), LAMBDA t :
+             [ns |-> <<h.nd>> \o t.ns, next |-> t.next]))
 
 Numbered(shape) == NumberSeq(shape, 1).ns
 
